@@ -172,6 +172,7 @@ type Val struct {
 	Nil   Term  // for structural pointers: condition under which the pointer is nil ("" = never)
 	Tuple []Val // multi-value results
 	Fn    *ssa.Function
+	Deref bool // (source-level names only) the name denotes the variable stored at this address
 	Global string // for a value loaded from a package-level variable: its key ("g:pkg.name")
 	Boxed *Val // value inside an interface / ranged-over value of an iterator
 }
